@@ -8,9 +8,9 @@ From Nexus Require Import Codec.Bytes Codec.Values Codec.Utf8 Codec.Tlv Codec.Ms
 Extraction Language OCaml.
 Extraction "c14model.ml"
   b2n n2b
-  value_norm value_eqb value_equiv
+  value_eqb value_equiv dicts_ok
   encode_value decode_value deserialize serialize items_of
   msg_to_list list_to_msg from_list code_of compatible
-  canon canon_msg msg_norm msg_eqb msg_equiv roundtrip_ok
+  canon canon_msg msg_norm msg_eqb msg_equiv roundtrip_ok value_roundtrip_ok
   find_struct find_new
   gen_schema gen_mp_opts gen_shape gen_codes schema_ok mp_opts_nexus.
